@@ -20,8 +20,8 @@ MInit == HInit([v |-> CfgV, t |-> CfgT, m |-> CfgM]) /\ hist = <<>>
 MAdd == \E id \in Ids, tp \in Templates :
           /\ id \notin Docs /\ AddOK(id, tp.pos, tp.toks, tp.meta) /\ UNCHANGED issued
           /\ Op([a |-> "add", id |-> id, pos |-> tp.pos, toks |-> tp.toks, meta |-> tp.meta, fault |-> "none"])
-MAddFail == \E id \in Ids, f \in {"vec", "meta"} :
-          /\ id \notin Docs /\ ((f = "vec" /\ cfg.v) \/ (f = "meta" /\ cfg.m)) /\ AddFailed /\ UNCHANGED issued
+MAddFail == \E id \in Ids, f \in {"vec", "meta", "metanil"} :
+          /\ id \notin Docs /\ ((f = "vec" /\ cfg.v) \/ (f \in {"meta", "metanil"} /\ cfg.m)) /\ AddFailed /\ UNCHANGED issued
           /\ Op([a |-> "add", id |-> id, pos |-> 2, toks |-> <<1, 5, 2>>, meta |-> [c |-> "x"], fault |-> f])
 MRemove == \E id \in Ids : /\ (RemoveOK(id) \/ RemoveRejected(id)) /\ Op([a |-> "remove", id |-> id])
 MFlush == (vdead # {} \/ tdead # {}) /\ Flush /\ Op([a |-> "flush"])
